@@ -162,6 +162,10 @@ func (c *Channel) Deliver(out, x []byte) ([]byte, error) {
 				}
 			}
 			if isApp {
+				if i == 1 {
+					// the current session is alive as long as the peer keeps talking through it
+					c.lastReceived = now
+				}
 				appData = out
 				if appData == nil {
 					// an empty message is still application data
